@@ -756,7 +756,7 @@ def run(pid, tier, seed, replay=None):
             mod, cfg = mc_module("SIM_" + tag, spec_cls, real, latlon, temporal, "thorough" if thorough else "quick")
             sc.write("SIM_%s.tla" % tag, mod)
             jobs.append((("sim", tag), sc, "SIM_" + tag, cfg_gen(cfg), dict(
-                simulate=dict(num=400 if thorough else 30, depth=25 if thorough else 14,
+                simulate=dict(num=200 if thorough else 30, depth=25 if thorough else 14,
                               seed=rng.randrange(1, 2**31), file=sc.path("sim/SIM_" + tag)), timeout=1800)))
         import time as _t
         _t0 = _t.time()
@@ -772,7 +772,7 @@ def run(pid, tier, seed, replay=None):
                               {"trace": tlc.error_trace(r)})
         work = []
         for tag, (spec_cls, real, optname, fixed, latlon, temporal) in meta.items():
-            work.append((tag, meta[tag], sc.dir, None if thorough else 700, rng.randrange(2**31), tier, seed))
+            work.append((tag, meta[tag], sc.dir, 5000 if thorough else 700, rng.randrange(2**31), tier, seed))
         import multiprocessing as mp
         with mp.get_context("fork").Pool(14) as pool:
             for res in pool.imap_unordered(_replay_tag, work):
